@@ -630,4 +630,7 @@ def run(rep, prog, thorough):
     check_getcallouts_progress(rep, prog)
     check_loop(rep, prog)
     check_buildoutput(rep, prog)
+    # "decoded from exactly its own bytes": the user-data sections hand their whole payload on (rule shared with C04)
+    from .c04 import check_sections
+    check_sections(rep, prog)
     rep.floor("sectionFun interpretations", rep.analysed.get("sectionFun interpretations", 0), 20)
